@@ -19,67 +19,21 @@
 (* was applied in (settled / refresh pending / control connection just lost); the       *)
 (* driver applies the sequence to the real proxy with that timing and compares the set  *)
 (* of nodes that receive requests with Routed after every settled step.                 *)
-EXTENDS Naturals, Sequences, FiniteSets, TLC, Json
+EXTENDS TopologyCore, TLC, Json
 
-CONSTANTS N, InitUp, MaxFaults, FaultKinds,
-          TimerStoppedOnClose     \* hazard switch (FALSE = the code as it should be): losing the control connection
-                                  \* stops the refresh timer but leaves pendingRefresh set
+CONSTANTS N, InitUp, MaxFaults
 
-VARIABLES listed, up,     \* backend truth
-          view,           \* hosts the proxy knows (Cluster.hosts)
-          ctrl,           \* host of the control connection, "none" while there is none
-          evq,            \* events received and not yet processed (Cluster.events)
-          pend, timer,    \* pendingRefresh; refreshTimer: off | armed | fired
-          hist            \* the faults applied so far, with the mode each was applied in (export)
+VARIABLES hist            \* the faults applied so far, with the mode each was applied in (export)
 vars == <<listed, up, view, ctrl, evq, pend, timer, hist>>
 
 H(i) == "h" \o ToString(i)
 All == {H(i) : i \in 1..N}
+ASSUME Hosts = All /\ FirstHost = H(1)
 SetToSeq(S) == LET RECURSIVE B(_) B(i) == IF i > N THEN <<>> ELSE (IF H(i) \in S THEN <<H(i)>> ELSE <<>>) \o B(i + 1) IN B(1)
 
 Init == /\ listed = {H(i) : i \in 1..InitUp} /\ up = {H(i) : i \in 1..InitUp}
         /\ view = listed /\ ctrl = H(1) /\ evq = <<>> /\ pend = FALSE /\ timer = "off"
         /\ hist = <<[a |-> "init", n |-> InitUp, mode |-> "settled"]>>
-
-Routed == listed \cap up                     \* what the proxy must route to once it has converged
-ProxyRoutes == view \cap up                  \* what it routes to (pools to nodes that are down hold no connection)
-Quiescent == ctrl # "none" /\ evq = <<>> /\ timer = "off"
-
------------------------------------------------------------------------------
-(* The proxy: Cluster.stayConnected                                                *)
-
-\* case event := <-c.events
-PEvent ==
-    /\ ctrl # "none" /\ evq # <<>>
-    /\ evq' = Tail(evq)
-    /\ IF Head(evq) \in {"topology", "status_up"} /\ ~pend
-       THEN timer' = "armed" /\ pend' = TRUE
-       ELSE UNCHANGED <<timer, pend>>
-    /\ UNCHANGED <<listed, up, view, ctrl, hist>>
-
-\* the refresh window elapses
-PTimerFires == timer = "armed" /\ timer' = "fired" /\ UNCHANGED <<listed, up, view, ctrl, evq, pend, hist>>
-
-\* a node always lists itself in its own system.local: the tables read through host c
-TablesVia(c) == listed \cup {c}
-
-\* case <-refreshTimer.C: refreshHosts (queryHosts + mergeHosts) on the control connection
-PRefresh ==
-    /\ ctrl # "none" /\ timer = "fired"
-    /\ view' = TablesVia(ctrl) /\ pend' = FALSE /\ timer' = "off"
-    /\ UNCHANGED <<listed, up, ctrl, evq, hist>>
-
-\* case <-connectTimer.C: reconnect() to the next known host that accepts; connect re-reads the tables
-PReconnect ==
-    /\ ctrl = "none"
-    /\ \E h \in view \cap up :
-        /\ ctrl' = h /\ view' = TablesVia(h)
-    /\ UNCHANGED <<listed, up, evq, pend, timer, hist>>
-
-Proxy == PEvent \/ PTimerFires \/ PRefresh \/ PReconnect
-
------------------------------------------------------------------------------
-(* The environment                                                                  *)
 
 \* the mode a fault is applied in, as far as the driver can steer it
 Mode == IF Quiescent THEN "settled"
@@ -89,53 +43,21 @@ Mode == IF Quiescent THEN "settled"
 
 Rec(a, h) == [a |-> a, h |-> h, mode |-> Mode, routed |-> SetToSeq(Routed'), listed |-> SetToSeq(listed'), up |-> SetToSeq(up')]
 
-\* the event the backend announces for a fault (to the registered control connection, if there is one)
-EventOf(a) == CASE a \in {"add", "remove", "unlist"} -> "topology" [] a = "start" -> "status_up" [] a = "stop" -> "status_down" [] OTHER -> "none"
-\* faults that take the control connection away when they hit its host
-ClosesCtrl(a, h) == \/ a \in {"dropctrl", "dropall"}
-                    \/ (a \in {"remove", "stop", "restart", "mute"} /\ h = ctrl)
-
 Fault(a, h) ==
-    /\ a \in FaultKinds /\ Len(hist) <= MaxFaults
+    /\ Len(hist) <= MaxFaults
     /\ Mode \in {"settled", "pending", "down"}
-    \* the proxy only reconnects to hosts it knows: some host it knows stays up and listed
-    /\ a \in {"remove", "unlist", "stop"} => Cardinality((Routed \cap view) \ {h}) >= 1
-    \* an unlisted node that is still running lists itself: while the proxy still knows such a node the control
-    \* connection is not taken away (it could fail over to that node and keep it; a decommissioned node of a real
-    \* cluster shuts down instead)
-    /\ ClosesCtrl(a, h) => (view \cap up) \subseteq listed
-    /\ CASE a = "add"     -> h \notin listed /\ listed' = listed \cup {h} /\ up' = up \cup {h}
-         [] a = "remove"  -> h \in listed /\ listed' = listed \ {h} /\ up' = up \ {h}
-         \* a node that is unlisted but still running keeps listing itself: the change is only visible through another node
-         [] a = "unlist"  -> h \in listed /\ h \in up /\ ctrl \notin {h, "none"} /\ listed' = listed \ {h} /\ UNCHANGED up
-         [] a = "stop"    -> h \in up /\ up' = up \ {h} /\ UNCHANGED listed
-         [] a = "start"   -> h \in listed \ up /\ up' = up \cup {h} /\ UNCHANGED listed
-         [] a \in {"restart", "droppooled", "mute"} -> h \in Routed /\ UNCHANGED <<listed, up>>
-         [] a \in {"dropctrl", "dropall"} -> h = H(1) /\ ctrl # "none" /\ UNCHANGED <<listed, up>>
-    /\ IF ClosesCtrl(a, h)
-       THEN /\ ctrl' = "none"
-            /\ timer' = IF TimerStoppedOnClose THEN "off" ELSE timer
-            /\ UNCHANGED evq                           \* events already received stay queued in the proxy
-       ELSE /\ UNCHANGED <<ctrl, timer>>
-            /\ evq' = IF ctrl # "none" /\ EventOf(a) # "none" THEN Append(evq, EventOf(a)) ELSE evq
-    /\ UNCHANGED <<view, pend>>
+    /\ CoreFault(a, h)
     /\ hist' = Append(hist, Rec(a, h))
 
 Env == \E a \in FaultKinds : \E h \in All : Fault(a, h)
-Next == Env \/ Proxy
-Spec == Init /\ [][Next]_vars /\ WF_vars(Proxy)
+ProxyStep == Proxy /\ UNCHANGED hist
+Next == Env \/ ProxyStep
+Spec == Init /\ [][Next]_vars /\ WF_vars(ProxyStep)
 
 -----------------------------------------------------------------------------
-\* sanity of the generator: some node always remains to serve requests
-SomeoneServes == Routed # {}
-\* C16: a quiescent proxy routes exactly to the nodes that are listed and up
-QuiescentConverged == Quiescent => ProxyRoutes = Routed
-\* C16: nodes that are up but no longer listed stop receiving requests
-ExpectedExcludesUnlisted == \A h \in up \ listed : h \notin Routed
 \* C16 (liveness): after the last fault the proxy becomes quiescent and stays so
 Settles == <>[]Quiescent
 
-View == <<listed, up, view, ctrl, evq, pend, timer, Len(hist)>>
 ExportInv == (Len(hist) = MaxFaults + 1 /\ Quiescent) => PrintT(<<"BEH", ToJson(hist)>>)
 \* with the hazard switch on: the fault sequences after which a proxy with that defect has not converged - the
 \* sequences that tell a correct implementation from one with the defect; they are replayed first
